@@ -111,15 +111,16 @@ def main():
              286.5, 300.1, 352.9, 354.0, 357.0, 358.0, 359.0, 359.5]
     extra += [float(x) for x in rng.uniform(0, 360, 40 if t == "quick" else 400)]
     extra = [d for d in extra if abs(((d + 7.5) % 15.0) - 0.0) > 0.5 and abs(((d + 7.5) % 15.0) - 15.0) > 0.5]
-    for d in extra:
+    for i_d, d in enumerate(extra):
         k = int(round(d / 15.0)) % 24
-        speed = 3.0
+        # the speed as a float and as an INTEGER (YAML `wind_speed: 5`, a Python int, a NumPy integer): the same decomposition
+        speed = [3.0, 3, 2, np.int64(5), 1][i_d % 5]
         u, v = compute_wind_fields(speed, d)
         if abs(math.hypot(u, v) - speed) > 1e-12 * speed:
             chk.violation("wind decomposition does not preserve the speed: |(u,v)| = %r for speed %r, direction %r" % (math.hypot(u, v), speed, d), {"kind": "orientation", "wind_dir": d}, klass={"check": "speed"})
         s_w, b_w = sector(u, v)
         obs.append({"k": k, "wind": s_w, "prof_zm": s_w, "prof_top": s_w, "cent": k, "tower_sx": 2, "tower_sy": 2, "want_sx": 2, "want_sy": 2, "x_east": True, "y_north": True})
-        meta.append({"kind": "orientation", "wind_dir": d, "closure": "-", "mol": 0.0, "grid": [], "speed": speed, "path": "decomposition only", "bearing_to_centroid": d, "bearing_error_deg": 0.0, "wind_bearing": b_w})
+        meta.append({"kind": "orientation", "wind_dir": d, "closure": "-", "mol": 0.0, "grid": [], "speed": float(speed), "speed_type": type(speed).__name__, "path": "decomposition only", "bearing_to_centroid": d, "bearing_error_deg": 0.0, "wind_bearing": b_w})
         chk.case(("decompose", d))
     for d in (1.0, 359.0, 91.0, 181.0, 269.0):
         k = int(round(d / 15.0)) % 24
